@@ -79,7 +79,7 @@ def tree_spec(draw, tier):
         size = len(bh.value_bytes({"type": typ, "value": value})) if typ != "node" else 12
         fo = typ in ("string", "array") and (size >= 0x800 or draw(st.integers(0, 5)) == 0)
         entries.append({"id": eid, "parent": parent, "key": key, "type": typ, "value": value, "table": draw(st.integers(1, ntables)),
-                        "fo": fo, "slack": draw(st.sampled_from([0, 0, 0, 3, 16])), "ins": draw(st.integers(0, 50)), "depth": depth})
+                        "fo": fo, "flag2": typ in ("string", "array") and draw(st.integers(0, 3)) == 0, "slack": draw(st.sampled_from([0, 0, 0, 3, 16])), "ins": draw(st.integers(0, 50)), "depth": depth})
         return eid
 
     def keys(n):
@@ -130,9 +130,9 @@ def tree_spec(draw, tier):
         "object_table": {"holes": draw(st.lists(st.integers(0, 8), max_size=3, unique=True)), "hole_type": draw(st.sampled_from([0, 0, 2, 3, 4])),
                          "chain_at": draw(st.sampled_from([None, None, 0, 1, 3])), "trailing": draw(st.integers(0, 3)),
                          "chain_depth": draw(st.sampled_from([1, 2, 2])), "chain_backwards": draw(st.booleans())},
-        "gap": draw(st.sampled_from([0, 0, 1])),
+        "gap": draw(st.sampled_from([0, 0, 1])), "start_pos": draw(st.sampled_from([None, None, None, 4, 0x1000, "end"])),
         # file objects at absolute offsets around and beyond 4 GiB (sparse in-memory file)
-        "fo_far": draw(st.sampled_from([0, 0, 0, 0xFFFFF000, 1 << 32, (1 << 32) + 0x5000, 0x2_8000_0000])),
+        "fo_far": draw(st.sampled_from([0, 0, 0, "tail", "tail", 0xFFFFF000, 1 << 32, (1 << 32) + 0x5000, 0x2_8000_0000])),
     }
     if draw(st.integers(0, 2)) == 0:
         # key-table indices need not be 1..N: gaps and high indices
@@ -226,6 +226,13 @@ def check(spec) -> Outcome:
     from dissect.hypervisor.descriptor.hyperv import HyperVFile
 
     out = Outcome()
+    if spec.get("fo_far") == "tail":
+        # file objects behind everything else, the file ending with the last value byte (writers do not pad to the allocation unit)
+        probe, _m = bh.build(dict(spec, fo_far=0))
+        spec = dict(spec, fo_far=-(-len(probe) // 0x1000) * 0x1000)
+        unpadded = True
+    else:
+        unpadded = False
     data, meta = bh.build(spec)
     exp = bh.tree_of(spec) if not spec.get("deep_chain") else None  # (the chain is compared iteratively below)
     types = {e["type"] for e in spec["entries"]}
@@ -247,10 +254,16 @@ def check(spec) -> Outcome:
         for off, vb in meta["far_objects"]:
             if vb:
                 fh.put(off, vb)
-        fh.grow(max(o + max(1, len(v)) for o, v in meta["far_objects"]) + 0x1000)
+        fh.grow(max(o + max(1, len(v)) for o, v in meta["far_objects"]) + (0 if unpadded else 0x1000))
+        if unpadded:
+            out.cls("unpadded-tail")
         out.cls("file-objects-beyond-4GiB" if any(o >= 1 << 32 for o, _v in meta["far_objects"]) else "file-objects-far")
     else:
         fh = io.BytesIO(data)
+    if spec.get("start_pos"):
+        # the caller has used the handle before (sniffed a magic, hashed the file): every structure sits at an absolute offset
+        fh.seek(0, 2) if spec["start_pos"] == "end" else fh.seek(min(spec["start_pos"], len(data)))
+        out.cls("handle-not-at-start")
     hf, err = lib(HyperVFile, fh)
     if err:
         out.fail(err.sig("hyperv-open"), f"HyperVFile() raised {err.describe()}")
